@@ -179,6 +179,69 @@ Proof.
     + eapply Ho2; eassumption.
 Qed.
 
+(* the same with the misc-data mode on or off: besides a source's Messages the receiver hands over only
+   datagrams that are not in tunnel format, verbatim (as cut to its MTU), and only when told to *)
+Definition misc_passed (p : packet) (m : msg) : Prop :=
+  rc_misc rc = true /\ m = takeN (rc_mtu rc) p
+  /\ (lenN m < FHS \/ first_word_is (rc_magic rc) m = false).
+
+Lemma recv_packet_sound_g t a p t' out :
+  (forall h, who a = Some h -> NoDup (map fst h) /\ Forall (valid h) (frags_of p)) ->
+  tbl_good t ->
+  recv_packet rc t a p = (t', out) ->
+  tbl_good t' /\ forall b m, In (b, m) out -> b = a /\ (misc_passed p m \/ forall h, who a = Some h -> In m (map snd h)).
+Proof.
+  intros Hgen Hg. destruct (rc_misc rc) eqn:Hmisc.
+  2:{ intros E. destruct (recv_packet_sound t a p t' out Hmisc Hgen Hg E) as [H1 H2]. split; [exact H1|].
+      intros b m Hin. destruct (H2 b m Hin) as [Hb Hm]. split; [exact Hb|right; exact Hm]. }
+  unfold recv_packet. rewrite Hmisc. cbn [andb].
+  destruct (lenN (takeN (rc_mtu rc) p) =? 0).
+  { intros E. injection E as <- <-. split; [exact Hg|intros b m []]. }
+  destruct ((lenN (takeN (rc_mtu rc) p) <? FHS) || negb (first_word_is (rc_magic rc) (takeN (rc_mtu rc) p))) eqn:Hm.
+  - intros E. injection E as <- <-. split; [exact Hg|]. intros b m [E|[]]. injection E as <- <-.
+    split; [reflexivity|]. left. split; [exact Hmisc|]. split; [reflexivity|].
+    apply orb_prop in Hm as [Hm|Hm]; [left; now apply N.ltb_lt|right]. now apply negb_true_iff in Hm.
+  - (* tunnel format: as with the mode off *)
+    fold (frags_of p).
+    destruct Hg as [Hwf Hg].
+    pose proof (recv_frags_own t a (frags_of p) Hwf) as Hown.
+    destruct (recv_frags t a (frags_of p)) as [t1 o1] eqn:E1.
+    destruct (rs_steps (tbl_find a t) (frags_of p)) as [r1 p1] eqn:E2.
+    destruct Hown as (Hwf1 & Hf1 & Ho1). subst p1.
+    intros E. injection E as <- <-.
+    split.
+    + split; [exact Hwf1|]. intros b h Hb.
+      destruct (N.eq_dec a b) as [->|Hab].
+      * rewrite Hf1. destruct (Hgen h Hb) as [Hnd Hv].
+        eapply rs_steps_sound; try eassumption. now apply Hg.
+      * pose proof (recv_frags_other t a b (frags_of p) Hwf Hab) as Hoth. rewrite E1 in Hoth. cbn [fst] in Hoth.
+        destruct Hoth as [E|E]; rewrite E; [now apply Hg|exact I].
+    + intros b m Hin. apply in_map_iff in Hin as (m' & E & Hin'). injection E as <- <-.
+      split; [reflexivity|]. right. intros h Hb. destruct (Hgen h Hb) as [Hnd Hv].
+      eapply (rs_steps_sound h (frags_of p)); try eassumption. now apply Hg.
+Qed.
+
+Lemma recv_all_sound_g net : forall t t' out,
+  (forall a p h, In (a, p) net -> who a = Some h -> NoDup (map fst h) /\ Forall (valid h) (frags_of p)) ->
+  tbl_good t ->
+  recv_all rc t net = (t', out) ->
+  tbl_good t' /\ forall a m h, In (a, m) out -> who a = Some h ->
+                   In m (map snd h) \/ exists p, In (a, p) net /\ misc_passed p m.
+Proof.
+  induction net as [|[a p] net IH]; intros t t' out Hgen Hg; cbn [recv_all].
+  - intros E. injection E as <- <-. split; [exact Hg|intros a m h []].
+  - destruct (recv_packet rc t a p) as [t1 o1] eqn:E1. destruct (recv_all rc t1 net) as [t2 o2] eqn:E2.
+    intros E. injection E as <- <-.
+    destruct (recv_packet_sound_g t a p t1 o1 (fun h Hh => Hgen a p h (or_introl eq_refl) Hh) Hg E1) as [Hg1 Ho1].
+    destruct (IH t1 t2 o2 (fun a' p' h' Hin Hh => Hgen a' p' h' (or_intror Hin) Hh) Hg1 E2) as [Hg2 Ho2].
+    split; [exact Hg2|]. intros b m h Hin Hb. apply in_app_iff in Hin as [Hin|Hin].
+    + destruct (Ho1 b m Hin) as [-> [Hm|Hm]].
+      * right. exists p. split; [now left|exact Hm].
+      * left. now apply Hm.
+    + destruct (Ho2 b m h Hin Hb) as [Hm|(p' & Hp' & Hm)]; [now left|].
+      right. exists p'. split; [now right|exact Hm].
+Qed.
+
 Lemma tbl_good_nil : tbl_good [].
 Proof. split; [constructor|]. intros a h _. exact I. Qed.
 
